@@ -59,6 +59,8 @@ TypeLaws ==
         /\ t.k = "dompair" => TotalOrder(t.a)
         \* every default-constructible type has a bottom to default to
         /\ HasDefault(t) => HasBot(t)
+        \* zero drift: what the (fixed) code computes for is_top is the model's IsTop
+        /\ \A r \in Reps(t) : IsTopCode(t, r) = IsTop(t, Abs(t, r))
 
 ValueLawsHold ==
     ph = "value" =>
